@@ -84,6 +84,7 @@ class Session:
             fakelmdb._ENVS[w.path] = SortedDict({b"\xee": b""})
             w.env.mutlog.clear()
             w.ns.kv.compile_match_from_query.cache_clear()
+            self._fresh_kv_writer()
         self._fresh_writer()
         for c in (self.cw, self.cq, self.cs):
             if c is not None:
@@ -92,6 +93,22 @@ class Session:
 
     def dump(self):
         return self.w.dump()
+
+    def _fresh_kv_writer(self):
+        """a store that was swapped under the relay's feet corresponds to a process restart: the writer thread (and whatever it keeps in
+        memory) starts afresh, as LMDBStorage.setup() would start it"""
+        from . import kvdoubles
+
+        w = self.w
+        st = w.storage
+        old = st.writer_thread
+        if old.queue._items:
+            raise RuntimeError("writer queue not empty at reset")
+        kvdoubles.stop_writer(old)
+        st.writer_thread = w.ns.kv.WriterThread(st.db, st.stat_collector)
+        st.writer_queue = st.writer_thread.queue
+        st.writer_queue.on_put = w._on_writer_put
+        st.writer_thread.start()
 
     def _fresh_writer(self):
         """start_client keeps a per-connection throttle that doubles with every refused EVENT: use a fresh
@@ -116,6 +133,7 @@ class Session:
                                   [(bf(r[0]), r[1], r[2]) for r in tg])
         else:
             fakelmdb._ENVS[w.path] = SortedDict(dump)
+            self._fresh_kv_writer()
         self._fresh_writer()
 
     # ---------------------------------------------------------------------------------------------
